@@ -4,18 +4,20 @@ use crate::core::Driver;
 pub mod c06;
 pub mod c07;
 pub mod c13;
+pub mod c14;
 pub mod c15;
 pub mod rawspec;
 pub mod rawview;
 pub mod toy;
 
-pub const ALL: &[&str] = &["C06", "C07", "C13", "C15", "TOY"];
+pub const ALL: &[&str] = &["C06", "C07", "C13", "C14", "C15", "TOY"];
 
 pub fn registry(id: &str) -> Box<dyn Driver> {
     match id {
         "C06" => c06::driver(),
         "C07" => c07::driver(),
         "C13" => c13::driver(),
+        "C14" => c14::driver(),
         "C15" => c15::driver(),
         "TOY" => toy::driver(),
         _ => panic!("MACHINERY: unknown property id {id}"),
